@@ -120,6 +120,10 @@ fn main() {
         Some("__c19") => {
             vcheck::checks::c19::child_main(&args[2], args[3].parse().unwrap());
         }
+        Some("__c19hist") => {
+            run::set_child_limits();
+            vcheck::checks::c19::hist_child_main(&args[2]);
+        }
         Some("__replay") => {
             run::set_child_limits();
             std::process::exit(run::replay_file(&props, Path::new(&args[2])));
